@@ -27,10 +27,12 @@ CATALOGUE = {
     "desc_only": ("/dev/ttyACM7{n}", "EiBotBoard,{name}", "n/a"),
     # a foreign device whose description BEGINS with a board's name (it is not called that: it has no name, tag or port name equal to it)
     "foreign_name_initial": ("/dev/ttyUSB5{n}", "{name} Bridge UART", "USB VID:PID=0403:6015 LOCATION=1-5.{n}"),
+    # the serial-number tag is the LAST token of the hardware id (nothing follows it)
+    "win_ser_end": ("COM4{n}", "USB Serial Device (COM4{n})", "USB VID:PID=04D8:FD92 SER={name}"),
     "id_in_desc": ("COM3{n}", "USB VID:PID=04D8:FD92 bridge", "PCI VEN_8086 SER={name} LOCATION=0-{n}"),
 }
 DESC_IS_EBB = {"mac_named", "unnamed", "desc_only"}
-ID_IS_EBB = {"mac_named", "unnamed", "win_ser", "win_snr", "vidpid_only"}
+ID_IS_EBB = {"mac_named", "unnamed", "win_ser", "win_snr", "vidpid_only", "win_ser_end"}
 FOREIGN_NEEDLES = ["zzz", "COM", "usb", "EiBot", "Lab", "ser", "east", "/dev/", "X2"]
 
 
